@@ -41,10 +41,14 @@ class EADeme(AbstractDeme):
     def run_metaepoch(self, tree) -> None:
         epoch_counter = 0
         metaepoch_generations = []
+        # Generations of the running metaepoch reach the history only when it ends,
+        # so the parents of the next generation have to be tracked here.
+        population = self.current_population
         while epoch_counter < self._generations:
-            offspring = self._ea.run(self.current_population, mutation_std=self._get_mutation_std())
+            offspring = self._ea.run(population, mutation_std=self._get_mutation_std())
             epoch_counter += 1
             metaepoch_generations.append(offspring)
+            population = offspring
 
             if tree._gsc(tree):
                 self._history.append(metaepoch_generations)
